@@ -163,6 +163,22 @@ func genGrammar(r *rng, o gramOpts) *gSpec {
 			case shape == 1 && j == 0:
 				// right recursion: r = T r | ...
 				p.terms = []gTerm{{kind: 0, name: pick(r, g.tokens)}, {kind: 1, name: names[i]}}
+			case shape == 3 && j == 0 && nr > 1:
+				// a rule followed by a non-empty NULLABLE tail: r = r' T? | r' T* — the lookahead of r' must then
+				// include what follows r as well (FIRST of a nullable suffix followed by the item's lookahead)
+				other := names[(i+1+r.intn(nr-1))%nr]
+				tail := gTerm{kind: 0, name: pick(r, g.tokens), card: pick(r, []string{"?", "*", "?"})}
+				p.terms = []gTerm{{kind: 1, name: other}, tail}
+				if r.chance(1, 3) {
+					p.terms = append(p.terms, gTerm{kind: 0, name: pick(r, g.tokens), card: "?"})
+				}
+			case shape == 4 && j == 0 && i+1 < nr:
+				// repetition of another rule: r = r'+ | r'* T
+				other := names[i+1]
+				p.terms = []gTerm{{kind: 1, name: other, card: pick(r, []string{"+", "*", "+"})}}
+				if r.chance(1, 2) {
+					p.terms = append(p.terms, gTerm{kind: 0, name: pick(r, g.tokens)})
+				}
 			case shape == 2 && j == 0 && nt >= 3:
 				// bracketed, nested list: r = T0 @list(r, T1) T2 | ...
 				e := gTerm{kind: 1, name: names[i]}
@@ -208,6 +224,20 @@ func genGrammar(r *rng, o gramOpts) *gSpec {
 				}
 				nt = append(nt, p.terms[pos:]...)
 				p.terms = nt
+			}
+			rule.prods = append(rule.prods, p)
+		}
+		if o.allowError && r.chance(1, 6) {
+			// an alternative that is @error alone (or @error+ / @error @error): right after it ERROR is an
+			// acceptable lookahead again, so a lexer ERROR token can follow a recovery directly
+			var p gProd
+			switch r.intn(4) {
+			case 0:
+				p.terms = []gTerm{{kind: 2, card: "+"}}
+			case 1:
+				p.terms = []gTerm{{kind: 2}, {kind: 2}}
+			default:
+				p.terms = []gTerm{{kind: 2}}
 			}
 			rule.prods = append(rule.prods, p)
 		}
